@@ -617,6 +617,14 @@ func (e *Env) call(n *ast.CallExpr) *Val {
 		v := arg(0)
 		t := e.typeExpr(n.Args[1])
 		return c.unbox(nil, app("ival", v.Term), t)
+	case "grown":
+		// grown(new, old): new is old's array re-sliced in place, or a freshly allocated array
+		nv, ov := arg(0), arg(1)
+		return boolVal(or(and(eq(app("lref", nv.Term), app("lref", ov.Term)), eq(app("loff", nv.Term), app("loff", ov.Term)), eq(app("lcap", nv.Term), app("lcap", ov.Term))),
+			app(">=", app("lref", nv.Term), c.next(e.old))))
+	case "samearray":
+		nv, ov := arg(0), arg(1)
+		return boolVal(and(eq(app("lref", nv.Term), app("lref", ov.Term)), eq(app("loff", nv.Term), app("loff", ov.Term))))
 	case "isglobal":
 		// isglobal(p, name): p is (statically) the address of package variable name
 		v := arg(0)
